@@ -96,7 +96,7 @@ package consensus
 //@ trusted func (m Message) ValidateBasic() (err error)
 //@ func MsgFromProto(msg *kcons.Message) (r Message, err error)
 //@   for C18
-//@   modifies *
+//@   modifies nothing
 //@   ensures [nilRejected] msg == nil ==> err != nil
 //@   ensures [newRoundStep] err == nil && dyntype(old(msg.Sum)) == typeid(*kcons.Message_NewRoundStep) ==> dyntype(r) == typeid(*NewRoundStepMessage) && unbox(r, *NewRoundStepMessage).Height == old(unbox(msg.Sum, *kcons.Message_NewRoundStep).NewRoundStep.Height) && unbox(r, *NewRoundStepMessage).Round == old(unbox(msg.Sum, *kcons.Message_NewRoundStep).NewRoundStep.Round) && unbox(r, *NewRoundStepMessage).Step == old(unbox(msg.Sum, *kcons.Message_NewRoundStep).NewRoundStep.Step) % 256 && unbox(r, *NewRoundStepMessage).SecondsSinceStartTime == old(unbox(msg.Sum, *kcons.Message_NewRoundStep).NewRoundStep.SecondsSinceStartTime) && unbox(r, *NewRoundStepMessage).LastCommitRound == old(unbox(msg.Sum, *kcons.Message_NewRoundStep).NewRoundStep.LastCommitRound)
 //@   ensures [newValidBlock] err == nil && dyntype(old(msg.Sum)) == typeid(*kcons.Message_NewValidBlock) ==> dyntype(r) == typeid(*NewValidBlockMessage) && unbox(r, *NewValidBlockMessage).Height == old(unbox(msg.Sum, *kcons.Message_NewValidBlock).NewValidBlock.Height) && unbox(r, *NewValidBlockMessage).Round == old(unbox(msg.Sum, *kcons.Message_NewValidBlock).NewValidBlock.Round) && unbox(r, *NewValidBlockMessage).IsCommit == old(unbox(msg.Sum, *kcons.Message_NewValidBlock).NewValidBlock.IsCommit)
@@ -147,3 +147,28 @@ package consensus
 //@   opt assumecallreqs
 //@   atcall MedianTime requires [medianOverThePreviousSet] validators == cs.LastValidators
 //@   atcall NewDuplicateVoteEvidence requires [accusedLookedUpInTheCurrentSet] valSet == cs.Validators
+
+// ---------------------------------------------------------------- C15: repairing a corrupted log
+// The repaired file is created empty (os.Create truncates an existing file), receives exactly the
+// messages decoded from the source, in order, and copying stops at the first decode error: the result
+// is the longest valid prefix.
+//@ func repairWalFile(src, dst string) (err error)
+//@   for C15
+//@   modifies *
+//@   opt assumecallreqs
+//@   atcall Create requires [outputStartsEmpty] name == dst
+//@   atcall Open requires [readsTheCorruptedFile] name == src
+//@   atcall WALEncoder.Encode requires [copiesWhatWasJustDecoded] v == msg && outer(err) == nil
+
+// Verified aspect of WALFromProto: a decoded record whose message is missing (nil) or carries no
+// variant is refused with an error, never dereferenced. (gogo/protobuf allocates the inner message of a
+// oneof wrapper it decodes; that is the precondition on the wrappers.)
+//@ aspect func WALFromProto(msg *kcons.WALMessage) (r WALMessage, err error)
+//@   for C15 C18
+//@   safe
+//@   requires msg != nil && dyntype(msg.Sum) == typeid(*kcons.WALMessage_EventDataRoundState) ==> unbox(msg.Sum, *kcons.WALMessage_EventDataRoundState) != nil && unbox(msg.Sum, *kcons.WALMessage_EventDataRoundState).EventDataRoundState != nil
+//@   requires msg != nil && dyntype(msg.Sum) == typeid(*kcons.WALMessage_MsgInfo) ==> unbox(msg.Sum, *kcons.WALMessage_MsgInfo) != nil && unbox(msg.Sum, *kcons.WALMessage_MsgInfo).MsgInfo != nil
+//@   requires msg != nil && dyntype(msg.Sum) == typeid(*kcons.WALMessage_TimeoutInfo) ==> unbox(msg.Sum, *kcons.WALMessage_TimeoutInfo) != nil && unbox(msg.Sum, *kcons.WALMessage_TimeoutInfo).TimeoutInfo != nil
+//@   requires msg != nil && dyntype(msg.Sum) == typeid(*kcons.WALMessage_EndHeight) ==> unbox(msg.Sum, *kcons.WALMessage_EndHeight) != nil && unbox(msg.Sum, *kcons.WALMessage_EndHeight).EndHeight != nil
+//@   modifies *
+//@   ensures [nilMessageRefused] msg == nil ==> err != nil
